@@ -49,6 +49,14 @@ Definition new_registers (data : slice) (startAddress : N) : rres registers :=
         r_end := u32 (u32 startAddress + u32 (dataLen / 2));
         r_data := data |}.
 
+(* ReadHoldingRegistersResponse.AsRegisters, ReadInputRegistersResponse.AsRegisters and
+   ReadWriteMultipleRegistersResponse.AsRegisters (three copies of the same line in package packet):
+   NewRegisters(r.Data, requestStartAddress).  The response's RegisterByteLen field is redundant with
+   len(r.Data) (the parsers set it to len(Data); the fields are exported, so a response value can
+   also carry 0 or any other number there) and is NOT consulted: the window is the Data slice. *)
+Definition as_registers (registerByteLen : N) (data : slice) (requestStartAddress : N) : rres registers :=
+  new_registers data requestStartAddress.
+
 (* WithByteOrder *)
 Definition with_byte_order (r : registers) (bo : N) : registers :=
   {| r_order := bo; r_start := r_start r; r_end := r_end r; r_data := r_data r |}.
